@@ -266,6 +266,19 @@ Example C07_store_hyps_example :
   (forall p c, In c (ctab pf_ct p) -> (N.to_nat c < N.to_nat p)%nat).
 Proof. exact (conj pf_content_isman pf_rank_dec). Qed.
 
+(* Scope: [ops] are operations that COMPLETE.  An operation aborted by the environment
+   half-way is not covered, and the statement is false there: a Delete whose unlink fails
+   after Untag / graph.Remove / saveIndex (EPERM, open handle on NTFS) leaves the blob stored
+   and un-indexed.  Declared out of scope (assumptions in bin/props.d/C07.py; audit F3). *)
+Theorem C07_store_delete_error_refuted :
+  exists content isman ops n p,
+    (forall q, content q <> [] -> isman q = true) /\
+    let s := delete_unlink_fails content isman
+               (fst (orun true true true content isman 50 empty_store ops)) p in
+    In p (o_blobs s) /\ In n (content p) /\ ~ In p (predecessors (o_graph s) n).
+Proof. exact store_delete_error_refuted. Qed.
+Print Assumptions C07_store_delete_error_refuted.
+
 (* closing the layout and opening it again (directory, fs.FS, tar: the same loadIndex)
    changes neither the stored set nor any Predecessors answer *)
 Theorem C07_store_reopen_same :
@@ -394,4 +407,17 @@ Proof.
   - vm_compute. intros p H. repeat (destruct H as [<-|H]; [reflexivity|]). destruct H.
   - vm_compute. intros p H Hne.
     repeat (destruct H as [<-|H]; [first [ now (exfalso; apply Hne) | tauto ]|]). destruct H.
+Qed.
+
+(* ... and the remaining hypothesis of C07_reload_equiv: every fetchable manifest is live *)
+Example C07_example_reload_hyp_storage :
+  forall p, ex_sok p = true -> ctab ex_ct p <> [] -> In p (g_nodes ex_live).
+Proof.
+  intros p _ Hne. vm_compute.
+  destruct (N.eq_dec p 2) as [->|H2]; [tauto|].
+  destruct (N.eq_dec p 3) as [->|H3]; [tauto|].
+  destruct (N.eq_dec p 4) as [->|H4]; [tauto|].
+  exfalso. apply Hne. unfold ctab, getd, ex_ct. simpl.
+  destruct (N.eqb_spec p 2); [congruence|]. destruct (N.eqb_spec p 3); [congruence|].
+  destruct (N.eqb_spec p 4); [congruence|]. reflexivity.
 Qed.
